@@ -9,5 +9,5 @@ CONSTANTS
   Corpus = "gen"
   Emit = FALSE
 SPECIFICATION Spec
-INVARIANTS TRange TDSmall TChildren TMonotone TPerm TFragment TDouble TGate TGateMono TBinding TBindState TAlias
+INVARIANTS TRange TDSmall TChildren TMonotone TPerm TFragment TDouble TGate TGateMono TBindState
 CHECK_DEADLOCK FALSE
